@@ -118,6 +118,8 @@ func ParseExpr(s string) (Expr, error) {
 func ParseSource(s string) (Source, error) {
 	p := NewParser(strings.NewReader(s))
 	defer p.Release()
+	// a source is what follows FROM: the dots of db.rp.measurement separate identifiers
+	p.s.s.checkDOT = true
 	return p.parseSource(true)
 }
 
